@@ -35,7 +35,7 @@ elif m2:
     place = ("append", m2.group(1))
     modpath = m2.group(1).split("src/")[1][:-3].replace("/", "::")
     names = re.findall(r"fn\s+(demo_\w+|\w+)\s*\(\)", demo)
-    filt = re.search(r"--lib\s*\\?\s*(\S+)", demo)
+    filt = re.search(r"tests::(demo_\w+)", demo)
     test_cmd = f"cargo test --offline -p bevy_replicon --lib {filt.group(1) if filt else modpath + '::tests'}"
 else:
     print("cannot determine demo placement"); sys.exit(2)
